@@ -52,6 +52,14 @@ def run(db, rep, tier):
     rep.rule("R7-immediate-child", "next-protocol tags are derived from the IMMEDIATE inner layer: a serialiser that stores a tag does not "
                                    "search the chain (find_pdu / rfind_pdu) to decide it", 8)
     r7_immediate(db, rep)
+    rep.rule("R8-pseudo-inputs-final", "what an inner layer's pseudo-header reads from its parent (source / destination address of IP and "
+                                       "IPv6) is final BEFORE the inner layers are serialised: the parent's write_serialization - which runs "
+                                       "after its children's - neither assigns those members nor calls their setters", 2)
+    r8_inputs(db, rep)
+    rep.rule("R9-rfc4884-length", "ICMP / ICMPv6 with extensions: the RFC 4884 length field that write_serialization stores (in 32-bit / 64-bit "
+                                  "words) announces exactly the offset at which trailer_size() makes the extension structure start (the quoted "
+                                  "datagram padded to at least 128 octets); both functions EXECUTED for sample sizes", 2)
+    r9_len(db, rep)
     rep.explanation = ("Ordering / protocol part of C05: for each checksum producer the zero-write-sum-fold-complement-store-patch sequence "
                        "and the pseudo-header arguments (R1); header fields are final when written (R2); tags come from the immediate "
                        "child and the IPv6 extension chain is linked for every index (R3); padding is zero after the payload (R4). "
@@ -1015,6 +1023,134 @@ def r6_fresh(db, rep):
                 rep.ok("R6-fresh-derived", key, facts.loc(f, x), "not guarded by an ordering test on its own old value")
     if n < 40:
         rep.analysis_broken("only %d derived-field stores found in serialisers" % n)
+
+
+def r9_len(db, rep):
+    from vlib import ieval
+    for K, unit in (("Tins::ICMP", 4), ("Tins::ICMPv6", 8)):
+        short = K.split("::")[-1]
+        w = fn(db, K + "::write_serialization")
+        ts = [h for h in db.fns_named(K + "::trailer_size") if h.get("body")]
+        if w is None or not ts:
+            rep.analysis_broken("%s::write_serialization / trailer_size vanished" % short)
+            continue
+        t = ts[0]
+        stores = [x for x in facts.fn_nodes(w) if x["k"] == "BinaryOperator" and x.get("op") == "=" and
+                  facts.expr_str(x["c"][0]).replace("this->", "").endswith("rfc4884.length")]
+        key = "%s:length-field" % short
+        if not stores:
+            rep.violation("R9-rfc4884-length", key, facts.loc(w), "write_serialization no longer stores the RFC 4884 length field")
+            continue
+        st = stores[-1]
+        region = None
+        for top in [x for x in w["body"].get("c", []) if x is not None]:
+            if any(y is st for y in facts.walk(top)):
+                region = top
+        if region is None:
+            rep.analysis_broken("%s: the statement that derives the length field was not found at the top level of write_serialization" % short)
+            continue
+
+        def mk(A, S, E):
+            def tf(e, env):
+                if e["k"] == "CXXMemberCallExpr":
+                    cn = e.get("cname")
+                    if cn in ("has_extensions", "are_extensions_allowed"):
+                        return 1
+                    if cn == "length" and len(e["c"]) == 1:
+                        return 1
+                    if cn == "get_adjusted_inner_pdu_size":
+                        return A
+                    if cn == "size" and len(e["c"]) == 1:
+                        inner = any(y["k"] == "CXXMemberCallExpr" and y.get("cname") == "inner_pdu" for y in facts.walk(e["c"][0]))
+                        return S if inner else E
+                    if cn == "inner_pdu" and len(e["c"]) == 1:
+                        return 1
+                if e["k"] == "ImplicitCastExpr" and e.get("ck") == "PointerToBoolean":
+                    return 1
+                return None
+            return tf
+        bad = None
+        try:
+            for A in (4, 8, 64, 120, 128, 136, 280):
+                S, E = A, 12
+                fin = {}
+                ieval.trace(w, region, {"__termfn2__": mk(A, S, E), "__db__": db}, final=fin)
+                fin["__termfn2__"] = mk(A, S, E)
+                L = ieval.ev(w, st["c"][1], fin) & 0xff
+                out = ieval.run_body(t, t["body"], {"__termfn2__": mk(A, S, E), "__db__": db})
+                if out is None:
+                    raise ieval.Unknown("trailer_size returns nothing")
+                start = out - E + S
+                if L * unit != start:
+                    bad = ("with a quoted datagram of %d octets and extensions present, trailer_size() places the extension structure %d octets "
+                           "into the body but the length field says %d x %d = %d: a dissector, which finds the structure only through that "
+                           "field, looks at padding instead of the extension header" % (A, start, L, unit, L * unit))
+                    break
+        except ieval.Unknown as e:
+            rep.undecided("R9-rfc4884-length", key, facts.loc(w, st), "outside the finite evaluator: %s" % e)
+            continue
+        if bad:
+            rep.violation("R9-rfc4884-length", key, facts.loc(w, st), bad)
+        else:
+            rep.ok("R9-rfc4884-length", key, facts.loc(w, st), "length x %d == start of the extension structure for 7 sample sizes" % unit)
+
+
+def r8_inputs(db, rep):
+    # the getters the pseudo-header calls read, by resolved callee: (class, getter name)
+    getters = {}
+    for q, proto in PRODUCERS:
+        f = fn(db, q)
+        if f is None:
+            continue
+        fns_ = [f] + [h for h in (db.functions.get(c.get("callee")) for c in facts.fn_nodes(f) if c["k"] == "CallExpr" and c.get("callee"))
+                      if h is not None and h.get("body") and not h.get("rec")]
+        for h in fns_:
+            for n in facts.fn_nodes(h):
+                if n["k"] == "CallExpr" and n.get("cname") == "pseudoheader_checksum":
+                    for a in n["c"][1:3]:
+                        for x in facts.walk(a):
+                            if x["k"] == "CXXMemberCallExpr" and x.get("callee"):
+                                g_ = db.fn(x["callee"])
+                                if g_ is not None and g_.get("rec") and g_.get("body"):
+                                    getters.setdefault(g_["rec"], {})[g_["qual"].split("::")[-1]] = g_
+    n_cls = 0
+    for K, gs in sorted(getters.items()):
+        w = [h for h in db.functions.values() if h.get("rec") == K and h.get("body") and h["qual"].endswith("::write_serialization")]
+        if not w:
+            continue
+        w = w[0]
+        n_cls += 1
+        fields = set()
+        for g_ in gs.values():
+            for x in facts.fn_nodes(g_):
+                if x["k"] == "MemberExpr" and x.get("isfield") and x.get("member") and x["member"] != "header_":
+                    fields.add(x["member"])
+        bad = None
+        for x in facts.fn_nodes(w):
+            if x["k"] in ("BinaryOperator", "CompoundAssignOperator") and (x["k"] == "CompoundAssignOperator" or x.get("op") == "="):
+                l = facts.strip_all(x["c"][0])
+                if l["k"] == "MemberExpr" and l.get("member") in fields:
+                    bad = (x, "assigns `%s`" % facts.expr_str(l))
+            if x["k"] == "CXXOperatorCallExpr" and x.get("op") == "=" and len(x["c"]) == 3:
+                l = facts.strip_all(x["c"][1])
+                if l["k"] == "MemberExpr" and l.get("member") in fields:
+                    bad = (x, "assigns `%s`" % facts.expr_str(l))
+            if x["k"] == "CXXMemberCallExpr" and x.get("cname") in gs and len(x["c"]) == 2:
+                me = facts.strip_all(x["c"][0])
+                obj = facts.strip_all(me["c"][0]) if me.get("c") else None
+                if obj is None or obj["k"] == "CXXThisExpr":
+                    bad = (x, "calls the setter %s(...)" % x["cname"])
+        key = "%s::write_serialization" % K.split("::")[-1]
+        if bad:
+            rep.violation("R8-pseudo-inputs-final", key, facts.loc(w, bad[0]),
+                          "%s %s, which the inner layer's pseudo-header (%s) has already read: PDU::serialize runs a layer's "
+                          "write_serialization AFTER its inner layers', so the transport checksum was computed with the old value and does "
+                          "not verify against the header that is written (derive it in prepare_for_serialize, which runs before)"
+                          % (key, bad[1], ", ".join(sorted(gs))))
+        else:
+            rep.ok("R8-pseudo-inputs-final", key, facts.loc(w), "does not touch %s (read by the children's pseudo-header)" % sorted(fields))
+    if n_cls < 2:
+        rep.analysis_broken("pseudo-header parents not found (%d): IP and IPv6 expected" % n_cls)
 
 
 def r7_immediate(db, rep):
